@@ -155,7 +155,7 @@ FRESH_EXTERNALS = {
     'sigma_clipped_stats', 'sigma_clip', 'SigmaClip', 'median_absolute_deviation',
     'overlap_slices', 'PchipInterpolator', 'RectBivariateSpline', 'KDTree', 'cKDTree',
     # astropy containers / models / tables constructed from scratch (columns are copied)
-    'QTable', 'Table', 'vstack', 'hstack', 'join', 'Column', 'SkyCoord', 'WCS',
+    'QTable', 'Table', 'join', 'Column', 'SkyCoord', 'WCS',
     'Gaussian1D', 'Gaussian2D', 'Const2D', 'TRFLSQFitter', 'LevMarLSQFitter', 'Parameter',
     'ProgressBar', 'tqdm', 'ProcessPoolExecutor', 'as_completed', 'get_context', 'deepcopy',
     'defaultdict', 'OrderedDict', 'namedtuple', 'partial', 'Rectangle', 'Circle', 'Ellipse',
